@@ -484,6 +484,32 @@ def pcEraOp : PC → Option OpK
   | .cChk _ _ => none
   | .done _ => none
 
+/-- The node a thread has marked and not yet unlinked (it is between the two stores of `unlink_node`). -/
+def pcWin : PC → Option Nat
+  | .idle => none
+  | .sLd1 _ _ => none
+  | .sLd2 _ _ _ _ => none
+  | .lkP _ _ _ => none
+  | .spP _ _ _ => none
+  | .lkC _ _ _ => none
+  | .spC _ _ _ => none
+  | .v1 _ _ _ => none
+  | .v2 _ _ _ => none
+  | .v3 _ _ _ => none
+  | .iSt _ _ _ _ => none
+  | .iLk _ _ _ _ => none
+  | .eLd _ _ _ => none
+  | .eMk _ _ _ _ => none
+  | .eUn _ _ c _ _ => some c
+  | .unlC _ _ _ _ => none
+  | .unlP _ _ _ => none
+  | .fLk _ _ => none
+  | .fSp _ _ => none
+  | .fChk _ _ => none
+  | .fUnl _ _ _ => none
+  | .cChk _ _ => none
+  | .done _ => none
+
 /-- Operations that link a node: `insert`, and `update` with `bAllowInsert`. -/
 def linkOk : OpK → Bool
   | .ins _ _ _ => true
@@ -928,6 +954,8 @@ structure StepEff (s : St) (t : Tid) (s' : St) (L L' : List Nat) : Prop where
   marks : ∀ a, s.mark a = false → s'.mark a = true →
     ∃ o p nx, s.pc t = .eMk o p a nx ∧ s'.pc t = .eUn o p a nx [1, s.val a] ∧ s.key a = okey o ∧ a ∈ L
   unl : ∀ a, a ∈ L → a ∉ L' → s.mark a = true ∧ ∃ o p nx r, s.pc t = .eUn o p a nx r
+  grow : ∀ a, a ∈ L' → a ∈ L ∨ s'.mark a = false
+  wout : ∀ a, pcWin (s.pc t) = some a → a ∉ L'
 
 /-- The key is absent (it lies in the gap behind the chain node `p`): the operation answers "not there" and the map
     does not change. -/
@@ -1003,7 +1031,7 @@ macro "sinv_close" : tactic =>
 macro "eff_close" : tactic =>
   `(tactic| (constructor <;> intros <;> (try dsimp only at *) <;>
       grind [upd, lpRet, wRet, opOf, gop, okey, oval, foundRet, absentRet, linkRet, heldP, heldC, insNode, onode,
-        afterSearch, afterLoad, action, actionVal, isEq]))
+        pcWin, afterSearch, afterLoad, action, actionVal, isEq]))
 
 macro "step_close " L:term : tactic =>
   `(tactic| (refine ⟨$L, ?h1, ?h2⟩; (case h1 => sinv_close); (case h2 => eff_close)))
